@@ -153,7 +153,8 @@ def twice(A, name, fn, args, kwargs, cls, deterministic, edit=None):
             A.add(V("C19", name, cls, "not_repeatable", "two calls of %s with the same arguments return different results" % name))
     # "can be repeated" also after the caller has edited the graph object in between: a call must not remember anything
     # about an argument object.  Add an edge in place, call; compare with the call on an independent deep copy of the
-    # edited graph; remove the edge again, call; compare with the very first answer.
+    # edited graph; remove it again; rewire (same numbers of nodes and edges); undo - each time the call on the same object
+    # must equal the call on an independent deep copy of the graph as it is then.
     if deterministic and len(outs) == 2 and not A.viol and args and isinstance(args[0], nx.Graph) and edit:
         import copy
         G = args[0]
@@ -163,19 +164,24 @@ def twice(A, name, fn, args, kwargs, cls, deterministic, edit=None):
                 random.seed(5); np.random.seed(5)
                 return repr(sig(fn(a0, *args[1:], **kwargs)))
             try:
-                G.add_edge(u, v, w=0.9, weight=1.3)
-                try:
-                    o3 = run(G); o4 = run(copy.deepcopy(G))
-                finally:
-                    G.remove_edge(u, v)
-                o5 = run(G)
+                steps = []
+                G.add_edge(u, v, w=0.9, weight=1.3); steps.append(("edge %r added in place" % ((u, v),), run(G), run(copy.deepcopy(G))))
+                G.remove_edge(u, v); steps.append(("edge %r added and removed again" % ((u, v),), run(G), run(copy.deepcopy(G))))
+                # a rewiring that keeps the numbers of nodes and edges but changes degrees
+                e1 = next(((a_, b_) for a_, b_ in G.edges() if a_ != b_ and {a_, b_} != {u, v}), None)
+                if e1 is not None:
+                    d1 = dict(G.edges[e1])
+                    G.remove_edge(*e1); G.add_edge(u, v, w=0.9, weight=1.3)
+                    steps.append(("edge %r replaced by %r in place (same numbers of nodes and edges)" % (e1, (u, v)), run(G), run(copy.deepcopy(G))))
+                    G.remove_edge(u, v); G.add_edge(*e1, **d1)
+                    steps.append(("the rewiring undone", run(G), run(copy.deepcopy(G))))
             except Exception as e:
                 return          # (failures on the edited graph are not this check's business)
             A.evals += 1
-            if o3 != o4:
-                A.add(V("C19", name, cls, "remembers_graph", "%s called again on the same graph object after edge %r was added in place differs from the call on an independent copy of the edited graph" % (name, (u, v))))
-            elif o5 != outs[0]:
-                A.add(V("C19", name, cls, "remembers_graph", "%s called on the same graph object after edge %r was added and removed again differs from its first answer" % (name, (u, v))))
+            for what, got, want in steps:
+                if got != want:
+                    A.add(V("C19", name, cls, "remembers_graph", "%s called on the same graph object after %s differs from the call on an independent copy of the graph as it is now" % (name, what)))
+                    break
 
 
 def run_spec(spec, props=("C19",)):
